@@ -173,6 +173,26 @@ theorem selfBits_ins_other (t : Tables) (root r : Addr) (o : Ov) (b : Bits) (ho 
     | some m => simp
   · simp [h]
 
+theorem selfBits_putNeighbor_other (s : State) (root r : Addr) (o : Ov) (n : Nat) (ho : o ≠ self) :
+    selfBits (putNeighbor s root o n).mem r = selfBits s.mem r ∧
+    selfBits (putNeighbor s root o n).disk r = selfBits s.disk r := by
+  unfold putNeighbor
+  cases h : s.mem.pres root o with
+  | some _ => exact ⟨rfl, rfl⟩
+  | none =>
+    simp only [onBoth]
+    exact ⟨selfBits_ins_other _ _ _ _ _ ho, selfBits_ins_other _ _ _ _ _ ho⟩
+
+theorem selfBits_markPresent_other (s : State) (f : FileS) (r : Addr) (o : Ov) (cid : Addr) (ho : o ≠ self) :
+    selfBits (markPresent s f o cid).mem r = selfBits s.mem r ∧
+    selfBits (markPresent s f o cid).disk r = selfBits s.disk r := by
+  unfold markPresent
+  cases h : s.mem.pres f.root o with
+  | none => exact ⟨rfl, rfl⟩
+  | some _ =>
+    simp only [onBoth]
+    exact ⟨selfBits_ins_other _ _ _ _ _ ho, selfBits_ins_other _ _ _ _ _ ho⟩
+
 theorem selfBits_delFile (t : Tables) (root r : Addr) :
     selfBits { presence := del t.presence root, discover := del t.discover root, source := del t.source root } r =
       if r = root then none else selfBits t r := by
